@@ -10,7 +10,12 @@
                                                         and of g (the SSA executor of Ssa.lean) from the same initial
                                                         state shows a difference: another path, another value of an
                                                         evaluated expression, another outcome of an instruction
-            | `invalid <clause> ; no-divergence-found`  rejected, none of the tried initial states separates them
+            | `invalid <clause> ; path-witness use=<b>.<p> name=<n> read=<v> path=[blocks] last-def=<w>`
+                                                        rejected, no diverging run found among the tried states, but a
+                                                        CFG path from the entry to a read is exhibited along which the
+                                                        last definition of the name is not the version the read names
+                                                        (the structural clause of the property fails on this path)
+            | `invalid <clause> ; no-divergence-found`  rejected, neither kind of counterexample found
             | `invalid panic/<feature>` | `invalid err/<kind>`   falcon produced no function although f has an entry
             | `valid noentry`                           f has no entry block and falcon answered with an error
     <clause> is a category without data values (it becomes the finding signature):
@@ -26,10 +31,11 @@
                                         disagree and the block has no phi node for the name, `stale` = a version is
                                         known and the read names another
        flow/phi-operand/<missing|name|no-phi|stale>
+       (a flow clause gets the suffix `/two-widths` when the name read occurs at two widths in f)
        flow/edge-target                 an out-edge of a reachable block leads to a block that does not exist
        cert/not-inductive               internal: the computed certificate is not closed
-    info = `phis=<k> cand=<0|1>`: number of phi nodes falcon inserted; cand=1 if some name is written in two
-           different blocks and read (by an instruction or a guard) in a block where it is not written before.
+    info = `phis=<k> cand=<0|1>`: number of phi nodes falcon inserted; cand=1 if some name is written in
+           some block and read (by an instruction or a guard) in a block where it is not written before.
 -/
 import FalconModel.DriverLoop
 import FalconModel.FilIL
@@ -39,42 +45,48 @@ open Falcon Falcon.Ssa
 
 -- ------------------------------------------------------------------ which clause fails (unverified diagnosis)
 
-def readFail (m : VMap) (ss : List Scalar) : Option String :=
+/-- a failed clause, and for the flow clauses the read that fails: block, position (instruction position, or the
+    number of instructions for a guard / a phi operand read at the end of the block), the scalar as read -/
+structure Fail where
+  clause : String
+  loc : Option (Nat × Nat × Scalar) := none
+
+def readFail (m : VMap) (ss : List Scalar) : Option (String × Scalar) :=
   match ss.find? (fun s => m.lookup s.name != some s.ssa) with
   | none => none
   | some s => match m.lookup s.name with
-    | none => some "no-phi"
-    | some _ => some "stale"
+    | none => some ("no-phi", s)
+    | some _ => some ("stale", s)
 
-def explainWalk : VMap → List Instr → Sum String VMap
-  | m, [] => .inr m
-  | m, i :: is =>
+def explainWalk (bi : Nat) : Nat → VMap → List Instr → Sum Fail VMap
+  | _, m, [] => .inr m
+  | k, m, i :: is =>
     match readFail m (opReads i.op) with
-    | some w => .inl s!"flow/instr-read/{w}"
-    | none => explainWalk (setAll m (opWrites i.op)) is
+    | some (w, s) => .inl ⟨s!"flow/instr-read/{w}", some (bi, k, s)⟩
+    | none => explainWalk bi (k + 1) (setAll m (opWrites i.op)) is
 
-def explainPhiOperand (vout : VMap) (p : Nat) (φ : Phi) : Option String :=
-  match φ.incoming.lookup p with
-  | none => some "flow/phi-operand/missing"
+def explainPhiOperand (vout : VMap) (p : Block) (φ : Phi) : Option Fail :=
+  match φ.incoming.lookup p.index with
+  | none => some ⟨"flow/phi-operand/missing", none⟩
   | some o =>
-    if o.name != φ.out.name then some "flow/phi-operand/name"
-    else (readFail vout [o]).map (fun w => s!"flow/phi-operand/{w}")
+    if o.name != φ.out.name then some ⟨"flow/phi-operand/name", none⟩
+    else (readFail vout [o]).map (fun (w, s) => ⟨s!"flow/phi-operand/{w}", some (p.index, p.instrs.length, s)⟩)
 
-def explainBlock (g : Function) (cert : Cert) (b : Block) : Option String :=
-  match explainWalk (cert.start b) b.instrs with
+def explainBlock (g : Function) (cert : Cert) (b : Block) : Option Fail :=
+  match explainWalk b.index 0 (cert.start b) b.instrs with
   | .inl w => some w
   | .inr vout =>
     (g.cfg.edgesOut b.index).findSome? (fun e =>
       match readFail vout (match e.cond with | none => [] | some c => c.scalars) with
-      | some w => some s!"flow/guard-read/{w}"
+      | some (w, s) => some ⟨s!"flow/guard-read/{w}", some (b.index, b.instrs.length, s)⟩
       | none =>
         match g.block e.tail with
-        | none => some "flow/edge-target"
+        | none => some ⟨"flow/edge-target", none⟩
         | some s =>
-          if !cert.reach.contains e.tail then some "cert/not-inductive"
-          else match s.phis.findSome? (explainPhiOperand vout b.index) with
+          if !cert.reach.contains e.tail then some ⟨"cert/not-inductive", none⟩
+          else match s.phis.findSome? (explainPhiOperand vout b) with
             | some w => some w
-            | none => if edgeFlowOk cert vout b.index s then none else some "cert/not-inductive")
+            | none => if edgeFlowOk cert vout b.index s then none else some ⟨"cert/not-inductive", none⟩)
 
 def explainShape (f g : Function) : String :=
   let ef := eraseF g
@@ -86,21 +98,69 @@ def explainShape (f g : Function) : String :=
   else if ef ≠ f then "shape/header"
   else "shape/erase"
 
-def explain (f g : Function) : String :=
+def explain (f g : Function) : Fail :=
   let cert := computeCert g
-  if eraseF g ≠ f then explainShape f g
+  if eraseF g ≠ f then ⟨explainShape f g, none⟩
   else if !phiShapeOk g then
     (if g.cfg.blocks.any (fun b => b.phis.any (fun φ => φ.incoming.map (·.1) != g.cfg.predecessorIndices b.index))
-     then "shape/phi-preds" else "shape/phi-entry")
+     then ⟨"shape/phi-preds", none⟩ else ⟨"shape/phi-entry", none⟩)
   else if !singleOk g cert then
-    (if (reachDefs g cert).any (fun d => d.scalar.ssa.isNone) then "single/unversioned-def" else "single/duplicate-def")
-  else if !entryOk g cert then "flow/entry"
+    (if (reachDefs g cert).any (fun d => d.scalar.ssa.isNone) then ⟨"single/unversioned-def", none⟩
+     else ⟨"single/duplicate-def", none⟩)
+  else if !entryOk g cert then ⟨"flow/entry", none⟩
   else
     match cert.reach.findSome? (fun i => match g.block i with
-        | none => some "cert/not-inductive"
+        | none => some ⟨"cert/not-inductive", none⟩
         | some b => explainBlock g cert b) with
     | some w => w
-    | none => "unknown"
+    | none => ⟨"unknown", none⟩
+
+-- ------------------------------------------------------------------ a path whose last definition is not the version read
+
+/-- the version of `n` current after the phi nodes and the first `k` instructions of `b`, entered with `v` -/
+def verThrough (n : String) (b : Block) (k : Nat) (v : Option Nat) : Option Nat :=
+  let v0 := b.phis.foldl (fun v φ => if φ.out.name == n then φ.out.ssa else v) v
+  (b.instrs.take k).foldl (fun v i => (opWrites i.op).foldl (fun v s => if s.name == n then s.ssa else v) v) v0
+
+/-- breadth-first search over (block, version of `n` on entry); every state carries the block path from the
+    entry that produces it -/
+def pathStates (g : Function) (n : String) (e : Nat) : List (Nat × Option Nat × List Nat) :=
+  let rec go : Nat → List (Nat × Option Nat × List Nat) → List (Nat × Option Nat × List Nat) →
+      List (Nat × Option Nat × List Nat)
+    | 0, seen, _ => seen
+    | fuel + 1, seen, frontier =>
+      let next := frontier.flatMap (fun (b, v, path) =>
+        match g.block b with
+        | none => []
+        | some blk =>
+          let vout := verThrough n blk blk.instrs.length v
+          (g.cfg.edgesOut b).map (fun ed => (ed.tail, vout, path ++ [ed.tail])))
+      let fresh := next.foldl (fun acc (st : Nat × Option Nat × List Nat) =>
+        if (seen ++ acc).any (fun t => t.1 == st.1 && t.2.1 == st.2.1) then acc else acc ++ [st]) []
+      if fresh.isEmpty then seen else go fuel (seen ++ fresh) fresh
+  go (4 * g.cfg.blocks.length + 4) [(e, none, [e])] [(e, none, [e])]
+
+def verStr : Option Nat → String
+  | none => "unversioned"
+  | some k => toString k
+
+/-- a CFG path from the entry to the failing read along which the last definition of the name is NOT the
+    version the read carries: a concrete counterexample to "every use names the version whose definition
+    reaches it on every path from the entry" -/
+def pathWitness (g : Function) (loc : Nat × Nat × Scalar) : Option String :=
+  let (ub, up, s) := loc
+  match g.cfg.entry, g.block ub with
+  | some e, some blk =>
+    (pathStates g s.name e).findSome? (fun (b, v, path) =>
+      if b == ub && verThrough s.name blk up v != s.ssa then
+        some s!"use={ub}.{up} name={s.name} read={verStr s.ssa} path={path} last-def={verStr (verThrough s.name blk up v)}"
+      else none)
+  | _, _ => none
+
+/-- the name of the failing read occurs at two widths in `f` -/
+def twoWidths (f : Function) (name : String) (all : List Scalar) : Bool :=
+  let _ := f
+  ((all.filter (·.name == name)).map (·.bits)).eraseDups.length ≥ 2
 
 -- ------------------------------------------------------------------ search for a diverging execution
 
@@ -220,8 +280,8 @@ def failFeature (f : Function) : String :=
     let r := reachable f
     if f.cfg.blocks.any (fun b => !r.contains b.index) then "unreachable-block" else "other"
 
-/-- some name is written in two different blocks and read, before any write of the block, by an instruction or
-    a guard of some block: a phi node may be needed -/
+/-- some name is written in some block and read, before any write of the block, by an instruction or a guard of
+    some block (the value on entry to the function counts as a definition too): a phi node may be needed -/
 def phiCandidate (f : Function) : Bool :=
   let writers (n : String) : List Nat :=
     (f.cfg.blocks.filter (fun b => b.instrs.any (fun i => (opWrites i.op).any (·.name == n)))).map (·.index)
@@ -233,7 +293,7 @@ def phiCandidate (f : Function) : Bool :=
       | i :: is, killed, acc =>
         go is (killed ++ (opWrites i.op).map (·.name)) (acc ++ ((opReads i.op).map (·.name)).filter (fun n => !killed.contains n))
     go b.instrs [] []
-  f.cfg.blocks.any (fun b => (upward b).any (fun n => (writers n).length ≥ 2))
+  f.cfg.blocks.any (fun b => (upward b).any (fun n => (writers n).length ≥ 1))
 
 def phiCount (g : Function) : Nat := (g.cfg.blocks.map (·.phis.length)).foldl (· + ·) 0
 
@@ -242,10 +302,16 @@ def phiCount (g : Function) : Nat := (g.cfg.blocks.map (·.phis.length)).foldl (
 def judge (f g : Function) : String :=
   if ssaCheck f g then "valid"
   else
-    let why := explain f g
+    let fail := explain f g
+    let why := match fail.loc with
+      | some (_, _, s) => if twoWidths f s.name (scalarsOfFunction f) then fail.clause ++ "/two-widths" else fail.clause
+      | none => fail.clause
     match searchDivergence f g with
     | some d => s!"invalid {why} ; diverge {d}"
-    | none => s!"invalid {why} ; no-divergence-found"
+    | none =>
+      match fail.loc.bind (pathWitness g) with
+      | some w => s!"invalid {why} ; path-witness {w}"
+      | none => s!"invalid {why} ; no-divergence-found"
 
 def handle (line : String) : String :=
   match line.splitOn "\t" with
